@@ -863,3 +863,44 @@ def known_fns(facts):
     """paths of the functions the reference tree has (empty set if there is no reference)"""
     import equiv
     return set(((equiv.reference(facts.config).get('#meta') or {}).get('fns') or {}).keys())
+
+
+def f64_discipline(facts, root_fn, crate, marker_call=None):
+    """Precision discipline of a per-sample computation that the code performs in f64: for the closures (and private
+    helpers, and their closures) reached from `root_fn` that convert a sample to f64, every such body must do its
+    arithmetic on fixed f64 operands and must not route a sample through the format's Float companion
+    (`Sample::mul_amp`, `to_float_sample`, a conversion to f32 or `<S as Sample>::Float`), which is f32 for every format
+    of 32 bits or less.  `marker_call`: only bodies calling this declared path are examined (None: those that call
+    to_sample::<f64> or one of the forbidden routes).  Returns [(body, what is wrong | None)]."""
+    import mirutil
+    bodies = {}
+    for p in callee_closure(facts, [root_fn], crate=crate):
+        b = facts.body(p)
+        if b is not None:
+            bodies[p] = b
+    for c in facts.bodies.values():
+        if c['kind'] == 'Closure' and any(c['path'].startswith(p + '::{closure') for p in list(bodies)):
+            bodies[c['path']] = c
+    out = []
+    FORBIDDEN = ('dasp_sample::Sample::mul_amp', 'dasp_sample::Sample::to_float_sample')
+    for path, b in sorted(bodies.items()):
+        calls = [t.get('callee') or {} for _, t in mirutil.calls(b)]
+        decl = [c.get('path', '') for c in calls]
+        to64 = [c for c in calls if c.get('path') == 'dasp_sample::Sample::to_sample' and 'f64' in (c.get('args') or [])[1:2]]
+        forb = [c for c in calls if c.get('path') in FORBIDDEN]
+        low = [c for c in calls if c.get('path') in ('dasp_sample::Sample::to_sample', 'dasp_sample::Sample::from_sample')
+               and any(a == 'f32' or str(a).endswith('::Float') for a in (c.get('args') or [])[1:])]
+        if marker_call is not None:
+            if marker_call not in decl:
+                continue
+        elif not (to64 or forb or low):
+            continue
+        bad = None
+        if forb:
+            bad = 'routes a sample through %s: computed in the format\'s Float companion (f32 for formats of 32 bits or less), not in f64' % forb[0]['path'].rsplit('::', 1)[-1]
+        elif low:
+            bad = 'converts through %s inside the computation' % [a for a in low[0]['args'][1:]][0]
+        elif not to64:
+            bad = 'the samples must be converted with to_sample::<f64>() and combined in f64 (no conversion to f64 found)'
+        out.append((b, bad))
+    return out
